@@ -58,6 +58,10 @@ P x___cxa_begin_catch(P e) { __vf_exc_pending = 0; if (ncaught >= 4) VF_FAIL("ca
 void x___cxa_end_catch(void) { if (ncaught <= 0) VF_FAIL("end_catch"); --ncaught; }
 void x___cxa_rethrow(void) { if (ncaught <= 0) VF_FAIL("rethrow"); __vf_exc_pending = 1; __vf_exc_ptr = caught[ncaught-1]; exc_ti = caught_ti[ncaught-1]; }
 P x___cxa_get_exception_ptr(P e) { return e; }
+/* std::current_exception() as used by default_reporter ("is an exception in flight?"): the handle of the innermost caught exception, null if none */
+void x__ZSt17current_exceptionv(P r) { *(P*)r = ncaught > 0 ? caught[ncaught - 1] : 0; }
+void x__ZNSt15__exception_ptr13exception_ptr10_M_releaseEv(P a0) {}
+void x__ZNSt15__exception_ptr13exception_ptr9_M_addrefEv(P a0) {}
 uint32_t x___cxa_guard_acquire(P g) { return *g == 0; }
 void x___cxa_guard_release(P g) { *g = 1; }
 void x___cxa_guard_abort(P g) { }
@@ -121,6 +125,27 @@ void __vf_assert_fail(const char *id) { printf("ASSERTION FAILED: %s\n", id); ex
 void __vf_reached(void) { printf("REACHED\n"); }
 #endif
 void __vf_access(void *p, int w) {}
+/* ---- std::regex: the engine is libstdc++ and outside the claim; construction is inert and regex_search answers an arbitrary bool */
+static uint32_t rx_asked, rx_verdict, rx_len;
+#ifdef __CPROVER__
+uint8_t nondet_u8(void);
+#endif
+void x__ZNSt7__cxx1111basic_regexIcNS_12regex_traitsIcEEEC2ISt11char_traitsIcESaIcEEERKNS_12basic_stringIcT_T0_EENSt15regex_constants18syntax_option_typeE(P a0, P a1, uint32_t f) {}
+void x__ZNSt7__cxx1111basic_regexIcNS_12regex_traitsIcEEEC2EOS3_(P a0, P a1) {}
+void x__ZNSt7__cxx1111basic_regexIcNS_12regex_traitsIcEEED2Ev(P a0) {}
+uint8_t x__ZSt12regex_searchIPKccNSt7__cxx1112regex_traitsIcEEEbT_S5_RKNS2_11basic_regexIT0_T1_EENSt15regex_constants15match_flag_typeE(P b, P e, P re, uint32_t fl) {
+  if (b == 0) VF_FAIL("regex_search on a null subject");
+  rx_asked++; rx_len = (uint32_t)(e - b);
+#ifdef __CPROVER__
+  rx_verdict = nondet_u8() & 1;
+#else
+  rx_verdict = 1;
+#endif
+  return (uint8_t)rx_verdict;
+}
+uint32_t x_verif_last_regex_verdict(void) { uint32_t v = rx_verdict; rx_verdict = 0; return v; }
+uint32_t x_verif_regex_asked(void) { uint32_t v = rx_asked; rx_asked = 0; return v; }
+uint32_t x_verif_regex_len(void) { return rx_len; }
 /* ---- C12 lock-discipline obligations (inserted by vf/lockinst.py at the entry of functions that touch shared state) */
 uint32_t x_verif_lock_depth(void) { return (uint32_t)__vf_lock_depth; }
 void x___vf_lockreq_always(P t) { VF_ASSERT(__vf_lock_depth > 0, "VA:C12.shared_state_accessed_without_the_lock"); }
